@@ -429,6 +429,9 @@ pub struct World {
     pub track_shadow: bool,
     /// journal file -> every journaled operation the harness issued while it was the active journal (text, seqno)
     pub journal_ops: BTreeMap<String, Vec<(String, u64)>>,
+    /// every committed write operation as a group of (keyspace, key, value or tombstone); a clear is (ks, [], None)
+    /// with `true` (C03: batch atomicity on crash images)
+    pub write_log: Vec<Vec<(u8, Vec<u8>, Option<Vec<u8>>, bool)>>,
 }
 
 pub mod fjall_filter {
@@ -549,6 +552,7 @@ impl World {
             shadow_lost: false,
             track_shadow: false,
             journal_ops: Default::default(),
+            write_log: vec![],
         };
         for i in 0..w.cfg.nks as u8 {
             w.create_ks(i)?;
@@ -583,6 +587,7 @@ impl World {
             shadow_lost: false,
             track_shadow: false,
             journal_ops: Default::default(),
+            write_log: vec![],
         };
         let names: Vec<u8> = w.model.keys().copied().collect();
         for i in names {
@@ -635,6 +640,10 @@ impl World {
     }
 
     fn mitem(&mut self, it: &Item) {
+        let logged = (it.ks, KEYS[it.k as usize].to_vec(), it.v.map(|v| self.val(it.ks, v)), false);
+        if let Some(g) = self.write_log.last_mut() {
+            g.push(logged);
+        }
         self.filtered_seen.remove(&(it.ks, KEYS[it.k as usize].to_vec()));
         self.must_filtered.remove(&(it.ks, KEYS[it.k as usize].to_vec()));
         self.loc.insert((it.ks, KEYS[it.k as usize].to_vec()), 0);
@@ -700,6 +709,11 @@ impl World {
 
     fn apply_inner(&mut self, op: &Op) -> Result<(), Violation> {
         self.steps += 1;
+        match op {
+            Op::Ins { .. } | Op::Rem { .. } | Op::Batch(_) | Op::BatchD(..) | Op::Tx(_) | Op::TxD(..) | Op::Ingest { .. } => self.write_log.push(vec![]),
+            Op::Clear { ks } => self.write_log.push(vec![(*ks, vec![], None, true)]),
+            _ => {}
+        }
         let e = |what: &str, e: fjall::Error| Violation::new("op_error", format!("{what}: {e:?}"));
         match op {
             Op::Ins { ks, k, v } => {
